@@ -176,6 +176,15 @@ static void e_timer(int secs)
 /* hooks a driver may use to mark an outcome itself (e.g. asan) */
 static const char *e_forced_outcome;
 
+/* a wild write by the library can scribble over the event buffer: never emit
+ * bytes that would break the NDJSON line */
+static const char *e_ev_clean(void)
+{
+    size_t i;
+    if (e_ev.n != strlen(e_ev.p)) return "\"garbled\"";
+    for (i = 0; i < e_ev.n; i++) if (e_ev.p[i] < 0x20 || e_ev.p[i] > 0x7e) return "\"garbled\"";
+    return e_ev.p;
+}
 /* run drv_apply under protection; returns outcome string */
 static const char *e_apply(const vop_t *op, jb_t *res)
 {
@@ -189,13 +198,13 @@ static const char *e_apply(const vop_t *op, jb_t *res)
         drv_apply(op, res);
         e_in_apply = 0;
         e_timer(0);
-        jb_printf(res, ",\"ev\":[%s]", e_ev.p);
+        jb_printf(res, ",\"ev\":[%s]", e_ev_clean());
         return e_forced_outcome ? e_forced_outcome : "ok";
     }
     e_timer(0);
     drv_aborted();
     jb_reset(res);            /* members written before the jump are dropped */
-    jb_printf(res, ",\"ev\":[%s]", e_ev.p);
+    jb_printf(res, ",\"ev\":[%s]", e_ev_clean());
     switch (sig) {
     case SIGABRT: return "abort";
     case SIGALRM: return "hang";
@@ -375,7 +384,10 @@ static int e_random(unsigned long seed, long steps, int restarts)
     long s; int r; unsigned long ntr = 0;
     e_emit_header("random");
     e_seed(seed);
+    /* `restarts` walks of `steps` steps each; an operation that aborts ends the
+     * process in real life, so the walk continues from a fresh state */
     for (r = 0; r < restarts && !e_fatal_seen; r++) {
+        int epoch = 0;
         drv_reset();
         for (s = 0; s < steps; s++) {
             vop_t op; const char *outcome;
@@ -386,10 +398,10 @@ static int e_random(unsigned long seed, long steps, int restarts)
             outcome = e_apply(&op, &res);
             jb_reset(&post);
             if (e_is_fatal(outcome)) jb_puts(&post, "{\"bad\":true}"); else drv_ser(&post);
-            e_emit(r, &op, outcome, &res, pre.p, post.p, NULL);
+            e_emit(r * 1000 + epoch, &op, outcome, &res, pre.p, post.p, NULL);
             ntr++;
             if (e_is_fatal(outcome)) { e_fatal_seen = 1; break; }
-            if (strcmp(outcome, "ok") || drv_terminal(&op)) break; /* abort: restart */
+            if (strcmp(outcome, "ok") || drv_terminal(&op)) { drv_reset(); epoch++; }
         }
         fflush(e_out);
     }
